@@ -1,5 +1,6 @@
 SPECIFICATION MCSpec
 CONSTANTS
+  SpuriousPass = TRUE
   AllSchedules = TRUE
   PermuteModules = FALSE
   N = 3
